@@ -433,6 +433,13 @@ class HTTP(BaseComponent):
         if isinstance(fevent, response):
             res = fevent.args[0]
             req = res.request
+            if res.status >= 500:
+                # not even the error response can be written (e.g. a header
+                # that cannot be encoded): another one would fail the same
+                # way, for ever. Give the connection up instead.
+                if req.sock is not None:
+                    self.fire(close(req.sock))
+                return
         elif isinstance(fevent.value.parent.event, request):
             req, res = fevent.value.parent.event.args[:2]
             if req.handled:
@@ -477,7 +484,8 @@ class HTTP(BaseComponent):
         req = res.request
 
         # Ignore failed "response" handlers (eg: Loggers or Tools)
-        if res.done:
+        # and error responses that failed (see _on_exception)
+        if res.done or res.status >= 500:
             return
 
         res = wrappers.Response(req, self._encoding, 500)
